@@ -20,6 +20,13 @@
 //             | at I | range A B | carry (i..) | field K | fields (K..) | reduce NAME AX MASK KEEP
 //             | sort AX ASC STABLE | argsort AX ASC STABLE | combinations N REPL AX | rpad T AX | rpadclip T AX
 //             | simplify | materialize
+//             | keys                 numfields / keys / key(i) / fieldindex(k) / haskey(k) (and of a name that is no key)
+//             | form                 does the Form of the object conform to the Form of the eager object
+//                                    (Form::equal in compatibility mode, the test of generate_and_check) -- 1 | 0
+//             | obs                  everything the object answers about itself without being asked for elements:
+//                                    (len ..) (depth ..) (type ..) (form ..) (keys ..)
+//     An array result of a step stays alive (the very C++ object: a lazy VirtualArray keeps what it cached when it
+//     was made) and is the target of later `(on I ...)` steps, whatever happens to the cache in between.
 //   answer: (id ok (step (v build) (e build) (n ..) (t ..))          <- construction of the two layouts
 //                  (step (v ok R|= | err C | lazy) [(veq 1 | 0 V E)] (e ok R | err C | lazy) (n c0 c1..) (t TOKEN...)) ...)
 //     "=" : same dump as the eager result; otherwise (veq ..) compares the two results by value (element walk)
@@ -345,7 +352,59 @@ static std::string value_of_dump(const std::string& text) {
   const std::string h = x.head();
   if (h == "scalar" || h == "none" || h == "unknown" || h.empty()) return text;
   if (h == "record") return value_elem(build(x[2])->getitem_at_nowrap(to_i64(x[1])));
-  return value_elem(build(x));
+  // (an array whose top node is a string list is an array of strings, not one string: walk it as an array, so that
+  //  the same strings behind an IndexedArray compare equal)
+  ContentPtr c = build(x);
+  return is_stringlike(c) ? value_array(c) : value_elem(c);
+}
+
+// ---- observations: what an array says about itself (answered by a VirtualArray from its Form / cached depths)
+// the eager counterpart of the object being observed (set while the virtual side of a step runs; null otherwise)
+static ContentPtr g_peer(nullptr);
+
+template <typename F>
+static std::string part(const char* name, F f) {
+  std::string v;
+  try { v = f(); }
+  catch (std::invalid_argument& e) { v = "!value"; }
+  catch (std::logic_error& e) { throw; }
+  catch (std::runtime_error& e) { v = "!runtime"; }
+  catch (std::exception& e) { v = "!other"; }
+  return std::string("(") + name + " " + v + ")";
+}
+
+static std::string obs_depth(const ContentPtr& c) {
+  auto mm = c->minmax_depth();
+  auto bd = c->branch_depth();
+  return "(" + std::to_string(c->purelist_depth()) + " " + std::to_string(mm.first) + " " + std::to_string(mm.second)
+         + " " + (bd.first ? "1" : "0") + " " + std::to_string(bd.second) + " " + (c->purelist_isregular() ? "1" : "0") + ")";
+}
+
+static std::string obs_keys(const ContentPtr& c) {
+  std::string o = "((nf " + std::to_string(c->numfields()) + ")";
+  std::vector<std::string> ks = c->keys();
+  o += " (keys";
+  for (size_t i = 0; i < ks.size(); i++) o += " " + ks[i];
+  o += ")";
+  for (size_t i = 0; i < ks.size(); i++) {
+    o += " (fidx " + ks[i] + " " + std::to_string(c->fieldindex(ks[i])) + ")";
+    o += " (key " + std::to_string(i) + " " + c->key((int64_t)i) + ")";
+    o += std::string(" (has ") + ks[i] + " " + (c->haskey(ks[i]) ? "1" : "0") + ")";
+  }
+  o += std::string(" (has zz ") + (c->haskey("zz") ? "1" : "0") + ")";
+  // the two refusals every array must make (asked last: by now the Form is known, so a refusal is not a failed generation)
+  o += " " + part("fidx-zz", [&]() { return std::to_string(c->fieldindex("zz")); });
+  o += " " + part("key-99", [&]() { return c->key(99); });
+  return o + ")";
+}
+
+// Form of the (virtual) object against the Form of its eager counterpart: the library's own conformance test
+// (ArrayGenerator::generate_and_check: expected->equal(generated, identities, parameters, no form keys, compatibility))
+static std::string obs_form(const ContentPtr& c) {
+  if (g_peer.get() == nullptr) return "1";
+  FormPtr vf = c->form(true);
+  FormPtr ef = g_peer->form(true);
+  return (vf->equal(ef, false, true, false, true) && ef->equal(vf, false, true, false, true)) ? "1" : "0";
 }
 
 // op = list (NAME args...) starting at index `b` of `s`.  Array results go to `out`, others to `text`.
@@ -357,11 +416,14 @@ static void apply_op(const Sx& s, size_t b, const ContentPtr& c, ContentPtr& out
   if (op == "valid") { text = c->validityerror("").empty() ? "1" : "0"; return; }
   if (op == "tojson") { text = codes(c->tojson(false, -1)); return; }
   if (op == "type") { text = codes(c->type(util::TypeStrs())->tostring()); return; }
-  if (op == "depth") {
-    auto mm = c->minmax_depth();
-    auto bd = c->branch_depth();
-    text = "(" + std::to_string(c->purelist_depth()) + " " + std::to_string(mm.first) + " " + std::to_string(mm.second)
-           + " " + (bd.first ? "1" : "0") + " " + std::to_string(bd.second) + " " + (c->purelist_isregular() ? "1" : "0") + ")";
+  if (op == "depth") { text = obs_depth(c); return; }
+  if (op == "keys") { text = obs_keys(c); return; }
+  if (op == "form") { text = obs_form(c); return; }
+  if (op == "obs") {
+    // no element is asked for.  (A part that raises ends the step, like any other operation: with a failing
+    // generator the eager array answers and the virtual one cannot.)
+    text = "((len " + std::to_string(c->length()) + ") (depth " + obs_depth(c) + ") (type "
+           + codes(c->type(util::TypeStrs())->tostring()) + ") (form " + obs_form(c) + ") (keys " + obs_keys(c) + "))";
     return;
   }
   if (op == "purelist_parameter") { text = codes(c->purelist_parameter(A(1).a)); return; }
@@ -546,7 +608,9 @@ static std::string handle_virt(const Sx& cs) {
         std::cerr << "@E " << (k - 1) << std::endl;
         Outcome eo = run_op(st, b, etarget, !quiet);
         std::cerr << "@V " << (k - 1) << std::endl;
+        g_peer = etarget;
         Outcome vo = run_op(st, b, vtarget, !quiet);
+        g_peer = ContentPtr(nullptr);
         if (vo.ok) {
           vr = vo.arr;
           bool same = eo.ok && eo.text == vo.text && !quiet;
